@@ -281,3 +281,8 @@ package mlink
 //@   ensures  [C10] went: forall j int :: {callret(f, j)} old(ncalls(f)) <= j && j < ncalls(f) - 1 ==> callret(f, j)
 //@   ensures  [C10] stopped: ncalls(f) - old(ncalls(f)) < q.size ==> ncalls(f) > old(ncalls(f)) && !callret(f, ncalls(f) - 1)
 //@   modifies calls(f)
+//@
+//@ func (*List).Len
+//@   requires [C10] listOK(lst)
+//@   ensures  [C10] result == lst.n
+//@   loop 1: invariant [C10] n == it1 && forall k int :: {yret1[k]} 0 <= k && k < it1 ==> yret1[k]
